@@ -289,6 +289,9 @@ struct Family {
   // return value + full observable content (ctx.fail on mismatch)
   virtual void                apply(Instance *, const Op &, Ctx &)          = 0;
   virtual bool                terminal(const Op &) const { return false; }
+  // scenario witnesses that are a function of the state BEFORE the operation (vacuity guard): recorded once
+  // per (state, operation) that is executed, also when the execution itself does not survive (sanitizer abort)
+  virtual void                pre_witness(Instance *, const Op &, Ctx &) {}
   virtual std::string         key(Instance *)                               = 0;
   // destroy the real container, check callbacks + ledger, delete the instance
   virtual void                finish(Instance *, Ctx &)                     = 0;
@@ -312,11 +315,16 @@ struct Family {
 };
 
 // allocator handed to c-ares: ledger, malloc(0) == NULL like c-ares' default allocator
+inline bool &malloc0_returns_pointer() // --malloc0 ptr: behave like an allocator that returns a unique block for size 0
+{
+  static bool b = false;
+  return b;
+}
 inline void *x_malloc(size_t n)
 {
   if (n == 0) {
     malloc0_calls()++;
-    return nullptr;
+    if (!malloc0_returns_pointer()) return nullptr;
   }
   return vf::l_malloc(n);
 }
@@ -356,9 +364,14 @@ public:
   std::set<std::string>                         poison;     // exact cases that killed an earlier run of this shard
   std::set<std::pair<vf::Hash128, std::string>> poison_ops; // generalised: (state before the last op, last op)
   std::set<int>                                 risky_ops;  // operations that killed an earlier run: probed in a child first
+  std::map<int, int>                            probe_aborts;
+  std::set<int>                                 blacklisted; // operations given up after MAX_PROBE_ABORTS aborts (=> not exhaustive)
+  // one execution is a few dozen container operations (microseconds); seconds mean a livelock inside the container
+  static const unsigned CASE_WATCHDOG_S = 10, PROBE_WATCHDOG_S = 4;
+  static const int      MAX_PROBE_ABORTS = 40;
   int                                           maxdepth;
   double                                        t_end;
-  bool                                          cut_by_depth = false, deadline_hit = false;
+  bool                                          cut_by_depth = false, deadline_hit = false, gave_up = false;
   bool                                          counting     = true;
   uint64_t                                      real_ops     = 0;
   std::string                                   fatal; // replay divergence etc.
@@ -430,7 +443,7 @@ public:
     if (pid < 0) return true;
     if (pid == 0) {
       vf::crashctx().path[0] = 0; // the parent reports; no crash file from the probe
-      vf::watchdog(60);
+      vf::watchdog(PROBE_WATCHDOG_S);
       Ctx ctx;
       ctx.checking = false;
       Instance *in = F.fresh(cfg, ctx);
@@ -491,7 +504,7 @@ public:
       ctx.rep      = &rep;
       ctx.checking = false;
       vf::set_current_case(replay_json(cfg, hist, nullptr), F.name() + ":replay");
-      vf::watchdog(60);
+      vf::watchdog(CASE_WATCHDOG_S);
       Instance *in = F.fresh(cfg, ctx);
       for (auto &o : hist) {
         ctx.opname = F.opname(o.c);
@@ -506,11 +519,26 @@ public:
         return;
       }
       F.enabled(in, ops);
+      if (counting) {
+        Ctx w;
+        w.rep      = &rep;
+        w.checking = true;
+        for (auto &o : ops)
+          if (!blacklisted.count(o.c)) F.pre_witness(in, o, w);
+      }
       F.finish(in, ctx);
       if (counting) rep.executions++;
       if (!ctx.internal.empty()) fatal = ctx.internal;
     }
     for (auto &op : ops) {
+      if (vf::now_s() > t_end) {
+        deadline_hit = true; // the state is only partly expanded
+        break;
+      }
+      if (blacklisted.count(op.c)) {
+        if (counting) rep.count("cases_skipped_operation_given_up");
+        continue;
+      }
       std::string js = replay_json(cfg, hist, &op);
       if (poison.count(js) || (!poison_ops.empty() && poison_ops.count({ sthash[s], F.op_json(op) }))) {
         if (counting) rep.count("poisoned_cases_skipped");
@@ -526,13 +554,19 @@ public:
           rep.transitions++;
           rep.executions++;
         }
+        if (++probe_aborts[op.c] >= MAX_PROBE_ABORTS) {
+          // the defect is reported; every further abort costs a fork (or a watchdog period): stop executing this
+          // operation and say so (the run is then not exhaustive)
+          blacklisted.insert(op.c);
+          gave_up = true;
+        }
         continue;
       }
       Ctx ctx;
       ctx.rep      = counting ? &rep : &quiet; // outcomes / witnesses of the shared prefix are counted by shard 0 only
       ctx.checking = false;
       vf::set_current_case(js, F.name() + ":" + F.opname(op.c));
-      vf::watchdog(60);
+      vf::watchdog(CASE_WATCHDOG_S);
       dlog().ev.clear();
       Instance *in = F.fresh(cfg, ctx);
       for (auto &o : hist) {
@@ -652,8 +686,9 @@ public:
       for (uint32_t n : next) q.push_back(n);
     }
     vf::watchdog(0);
-    rep.exhaustive = !deadline_hit;
-    rep.closed     = !deadline_hit && !cut_by_depth && fatal.empty();
+    rep.exhaustive = !deadline_hit && !gave_up;
+    rep.closed     = !deadline_hit && !gave_up && !cut_by_depth && fatal.empty();
+    for (int c : blacklisted) rep.counters[std::string("operation_given_up_") + F.opname(c)] = 1;
     rep.counters["real_ops_executed"]     = real_ops;
     rep.counters["malloc0_calls"]         = malloc0_calls();
     rep.counters["states_left_in_queue"]  = q.size();
